@@ -6,6 +6,7 @@ import Gzx.Driver.C05
 import Gzx.Driver.C06
 import Gzx.Driver.C06Det
 import Gzx.Driver.C07
+import Gzx.Driver.C07QREnc
 import Gzx.Driver.C08
 import Gzx.Driver.C09
 import Gzx.Driver.C10
@@ -32,6 +33,7 @@ def dispatch (line : String) : String :=
   | "c06" :: rest => C06.handle rest
   | "c06det" :: rest => C06Det.handle rest
   | "c07" :: rest => C07.handle rest
+  | "c07m" :: rest => C07QREnc.handle rest
   | "c08" :: rest => C08.handle rest
   | "c09" :: rest => C09.handle rest
   | "c10" :: rest => C10.handle rest
